@@ -22,6 +22,19 @@ CLAIMED = {
     },
 }
 
+CLAIMED['C17'] = {
+    'text': 'Seeded deterministic simulation of publication histories against the real Bi/bi_merge/bi_read: publishers stamp versions from a '
+            'simulated wall clock (explicitly, or implicitly through bi_merge\'s default "now" read via the clock seam), with clock stalls (several '
+            'publications sharing a stamp), forward clock jumps and duplicate delivery of earlier messages injected; as-of readers before, on, '
+            'strictly between and after every stamp. Oracles: per-date single-copy log model (what=-1 and what=0), a no-look-ahead invariant over '
+            'the recorded history (implementation against itself), redelivery idempotence, store-shape invariant. Evidence over sampled histories, not proof.',
+    'note': 'Versions are pandas Series (float/int, optionally named) over a common set of up to 60 observation dates; stamps non-decreasing in '
+            'merge order as the property presupposes (redelivery of a version no longer in the store with an old stamp is not executed). '
+            'what=0 with several publications at the earliest stamp accepts any of them. pandas is trusted.',
+    'technique': 'deterministic simulation: seeded publication/read histories under a simulated clock with stall and duplicate-delivery faults, reference-model oracle',
+    'design_ref': 'DESIGN.md 4 (C17)',
+}
+
 NOT_APPLICABLE = {
     'C02': 'join/xor: result and termination are a function of the two argument tables of one call; no schedule, clock, shared state or fault to simulate.',
     'C03': 'df_sync/df_reindex/presync alignment: pure function of the argument collection and policy; presync wrappers hold no mutable state.',
